@@ -63,6 +63,45 @@ Definition op_mi_dec (args : list sx) : sx :=
   | _ => bad_args
   end.
 
+(* mi_dec_retry draft stream digest maxrs (sizes) n : like mi_dec, then n more Read
+   calls (64-byte buffers) on the SAME decoder after the first error / end of
+   stream; each is reported as (bytes status). *)
+Fixpoint read_cyc_st (fuel : nat) (s : dec) (cur all : list N) (acc : bytes) : dec * bytes * rstat :=
+  match fuel with
+  | O => (s, acc, ROk)
+  | S f =>
+      match cur with
+      | [] => match all with [] => (s, acc, ROk) | _ => read_cyc_st f s all all acc end
+      | k :: t =>
+          let '(s', out, st) := read sha256 s k in
+          match st with
+          | ROk => read_cyc_st f s' t all (acc ++ out)
+          | _ => (s', acc ++ out, st)
+          end
+      end
+  end.
+Fixpoint retry_reads (n : nat) (s : dec) : list sx :=
+  match n with
+  | O => []
+  | S m => let '(s', out, st) := read sha256 s 64 in SL [SB out; sx_rstat st] :: retry_reads m s'
+  end.
+Definition op_mi_dec_retry (args : list sx) : sx :=
+  match args with
+  | [d; SB stream; SB digest; SZ maxrs; SL sizes; SZ n] =>
+      match draft_of d, omap as_n sizes with
+      | Some d, Some sz =>
+          match new_decoder sha256 d stream digest (Z.to_N maxrs) with
+          | Ok s =>
+              let '(s', out, st) := read_cyc_st (4 * S (List.length stream)) s sz sz [] in
+              SL [sym "dec"; SB out; sx_rstat st;
+                  SL (match st with ROk => [] | _ => retry_reads (Z.to_nat n) s' end)]
+          | _ => SL [sym "newerr"]
+          end
+      | _, _ => bad_args
+      end
+  | _ => bad_args
+  end.
+
 Fixpoint is_prefix (a b : bytes) : bool :=
   match a, b with
   | [], _ => true
@@ -104,4 +143,5 @@ Definition dispatch_mice (op : bytes) (args : list sx) : option sx :=
   else if bytes_eqb op (s2b "mi_enc") then Some (op_mi_enc args)
   else if bytes_eqb op (s2b "mi_dec") then Some (op_mi_dec args)
   else if bytes_eqb op (s2b "mi_interleave") then Some (op_mi_interleave args)
+  else if bytes_eqb op (s2b "mi_dec_retry") then Some (op_mi_dec_retry args)
   else None.
